@@ -34,6 +34,7 @@ var c02Shapes = []string{
 	"t && t", "t || t", "t && n > 1", "!t", "-n", "-f", "(n + 1) * 2", "(n % 2)", "!(n > 1)",
 	"length(s)", "length(arr)", "upper(s)", `contains(s, "s")`, `split(s, ",")`, `substring(s, 0, 1)`, `replace(s, "s", "r")`, "trim(s)", `join(arr, ",")`,
 	"obj.a", "arr[0]", `obj["a"]`, "arr[n % 2]",
+	"query.rep", "query.num", `headers["X-H"]`, "query.n",
 	"match n { 7 => 1, _ => 2 }", "match t { true => true, _ => false }", `match s { "s" => "a", _ => "b" }`,
 }
 
@@ -108,9 +109,9 @@ func c02MatrixCases(yield func(c02MCase) bool) {
 }
 
 var c02MReqs = []string{
-	"/m?n=7&f=2.5&s=s&t=true",
-	"/m?n=0&f=0.5&s=&t=false",
-	"/m?n=-3&f=-1.5&s=a,b&t=true",
+	"/m?n=7&f=2.5&s=s&t=true&rep=a&rep=b&num=5",
+	"/m?n=0&f=0.5&s=&t=false&rep=1&rep=2&num=x",
+	"/m?n=-3&f=-1.5&s=a,b&t=true&rep=&rep=&num=2.5",
 }
 
 func runC02Matrix(c c02MCase) evid.Outcome {
@@ -141,6 +142,7 @@ func runC02Matrix(c c02MCase) evid.Outcome {
 			r := httptest.NewRequest("POST", "http://verif.test"+path, strings.NewReader(`{"arr":[1,2],"obj":{"a":1},"z":null}`))
 			r.Header.Set("Content-Type", "application/json")
 			r.RemoteAddr = "10.1.2.3:40000"
+			r.Header.Set("X-H", "hv")
 			return s.do(r)
 		}
 		a, b := do(comp), do(itp)
